@@ -369,7 +369,26 @@ func main() {
 			return
 		}
 		base := append(append([]string{}, corpus...), hxsyn.Extra...)
-		progs := append([]string{}, base...)
+		// pinned regression corpus first, on every seed and tier
+		var progs, regDocs []string
+		pinnedSrc := map[string]bool{}
+		if len(o.Args) > 0 {
+			reg, err := hxsyn.LoadRegress(o.Args[0])
+			if err != nil {
+				hx.Emit(map[string]any{"error": "regress corpus: " + err.Error()})
+				return
+			}
+			for _, r := range reg {
+				if r.Src != "" {
+					progs = append(progs, r.Src)
+					pinnedSrc[r.Src] = true
+				}
+				if r.Doc != "" {
+					regDocs = append(regDocs, r.Doc)
+				}
+			}
+		}
+		progs = append(progs, base...)
 		r := hx.Rand(o.Seed, 15)
 		for i := 0; i < o.N; i++ {
 			progs = append(progs, hxsyn.Mutate(r, base))
@@ -445,7 +464,7 @@ func main() {
 				parsed = true
 				handle(src, hxsyn.LangNames[li], file)
 			})
-			if !parsed {
+			if !parsed || pinnedSrc[src] {
 				hxsyn.ParseRecover(src, func(li int, file *syntax.File) {
 					st.Recovered++
 					handle(src, hxsyn.LangNames[li]+"+recover", file)
@@ -515,7 +534,7 @@ func main() {
 				dc = append(dc, dcase{Doc: string(doc), JSON: hxsyn.CoqJSONAny(ast), Res: res})
 			}
 		}
-		for _, d := range handDocs {
+		for _, d := range append(append([]string{}, regDocs...), handDocs...) {
 			emitDoc([]byte(d))
 		}
 		nhand := len(dc)
@@ -563,7 +582,12 @@ func main() {
 			h.Write([]byte(fmt.Sprint(o.Seed, key)))
 			return h.Sum64()
 		}
-		sort.SliceStable(ec, func(i, j int) bool { return rot(ec[i].JSON) < rot(ec[j].JSON) })
+		sort.SliceStable(ec, func(i, j int) bool {
+			if pinnedSrc[ec[i].Src] != pinnedSrc[ec[j].Src] {
+				return pinnedSrc[ec[i].Src]
+			}
+			return rot(ec[i].JSON) < rot(ec[j].JSON)
+		})
 		if len(ec) > ecases {
 			ec = ec[:ecases]
 		}
